@@ -37,6 +37,10 @@ func TestSim(t *testing.T) {
 	}
 	verifh.Drive(t, "B", func(_ *testing.T, rt *rapid.T) {
 		p := GenPlan(rt, prop)
+		if prop != "C13" {
+			// the properties that already read a panic of the call as a violation; C13 does not judge panics
+			verifh.Pending("B", p)
+		}
 		v, s := Run(p, logOn)
 		if logOn {
 			logw.WriteString("RUN\n" + strings.Join(s.log, "\n") + "\n")
